@@ -158,10 +158,118 @@ func workerC12(thorough bool, shard, nshards int) {
 		}
 	}
 	rec(nil)
+	// long arrays: n distinct numbers/strings/containers, then one duplicated pair at chosen
+	// positions, the second occurrence in another representation of the same value
+	if shard == 0 {
+		elem := func(k int, alt bool) (any, string) {
+			switch k % 4 {
+			case 0:
+				if alt {
+					return int64(k), fmt.Sprintf("int64(%d)", k)
+				}
+				return float64(k), fmt.Sprintf("float64(%d)", k)
+			case 1:
+				if alt {
+					return gen.MyStr(fmt.Sprintf("s%d", k)), fmt.Sprintf("MyStr(s%d)", k)
+				}
+				return fmt.Sprintf("s%d", k), fmt.Sprintf("%q", fmt.Sprintf("s%d", k))
+			case 2:
+				if alt {
+					return []int{k, 1}, fmt.Sprintf("[]int{%d,1}", k)
+				}
+				return []any{float64(k), json.Number("1")}, fmt.Sprintf("[]any{%d,1}", k)
+			}
+			if alt {
+				return map[gen.MyKey]int{"k": k, "z": 0}, fmt.Sprintf("map[MyKey]int{k:%d,z:0}", k)
+			}
+			return map[string]any{"z": 0.0, "k": float64(k)}, fmt.Sprintf("map[string]any{z:0,k:%d}", k)
+		}
+		for _, n := range []int{5, 8, 9, 16, 17, 33, 65, 129} {
+			type dup struct{ i, j int }
+			dups := []dup{{-1, -1}, {0, n - 1}, {n - 2, n - 1}, {0, 1}, {n / 2, n/2 + 1}, {1, n - 2}, {2, n - 1}, {3, n / 2}}
+			for _, d := range dups {
+				xs := make([]any, n)
+				for k := range xs {
+					xs[k], _ = elem(k, false)
+				}
+				desc := fmt.Sprintf("long array n=%d distinct", n)
+				if d.i >= 0 && d.i != d.j && d.j < n {
+					xs[d.j], _ = elem(d.i, true)
+					desc = fmt.Sprintf("long array n=%d, element %d repeats element %d in another representation", n, d.j, d.i)
+				} else if d.i >= 0 {
+					continue
+				}
+				want := d.i < 0
+				w.Scenarios++
+				for fam := range fams {
+					f := fam
+					jsonschema.VerifHooks.HashFamily = func() int { return f }
+					got := urs.Validate(xs) == nil
+					w.Executions++
+					w.Points++
+					if got != want {
+						w.Failures = append(w.Failures, envrun.Failure{Key: "uniqueItems " + desc + " under hash family " + fams[fam], Choices: []int{fam}, What: fmt.Sprintf("want valid=%v, got %v", want, got)})
+					}
+				}
+			}
+		}
+		// typed top-level arrays
+		for _, c := range []struct {
+			x    any
+			want bool
+		}{{[]int{1, 1}, false}, {[]int{1, 2}, true}, {[2]float64{1, 1}, false}, {[3]float64{1, 2, 1.5}, true}, {[]map[string]int{{"a": 1, "b": 2}, {"b": 2, "a": 1}}, false}, {[]map[string]int{{"a": 1}, {"a": 2}}, true},
+			{[][]int{{1}, {1}}, false}, {[][]int{{1, 2}, {2, 1}}, true}, {[]*int{nil, nil}, false}, {[]json.Number{"1", "1.0"}, false}, {[]json.Number{"1", "10e-1", "2"}, false}, {[]gen.MyStr{"a", "b"}, true}, {[]any{[]uint8{1, 2}, []uint8{1, 3}}, true},
+			{[][]uint8{{1, 2}, {1, 2}}, false}, {[][]uint8{{1, 2}, {1, 3}, {1}}, true}, {[]map[gen.MyKey]any{{"a": nil}, {"a": (*int)(nil)}}, false}, {gen.MySlice{1.0, "1"}, true}} {
+			w.Scenarios++
+			for fam := range fams {
+				f := fam
+				jsonschema.VerifHooks.HashFamily = func() int { return f }
+				got := urs.Validate(c.x) == nil
+				w.Executions++
+				w.Points++
+				if got != c.want {
+					w.Failures = append(w.Failures, envrun.Failure{Key: "uniqueItems " + gen.Describe(c.x) + " under hash family " + fams[fam], Choices: []int{fam}, What: fmt.Sprintf("want valid=%v, got %v", c.want, got)})
+				}
+			}
+		}
+	}
 	w.States = w.Scenarios * len(fams)
 	w.Bound = 1
 	w.Outcomes = 1
 	clearHooks()
+	// map iteration order x hash family: arrays that hold maps with several keys
+	{
+		mk := func(desc string, xs any) envSubject {
+			return envSubject{"uniqueItems " + desc, func() string { return fmt.Sprint(urs.Validate(xs) == nil) }, 3}
+		}
+		subs := []envSubject{
+			mk("two equal 3-key maps (string keys / MyKey keys)", []any{map[string]any{"a": 1.0, "b": "x", "c": nil}, map[gen.MyKey]any{"c": nil, "b": "x", "a": 1}}),
+			mk("two maps differing in one of 3 values", []any{map[string]any{"a": 1.0, "b": "x", "c": nil}, map[string]any{"a": 1.0, "b": "y", "c": nil}}),
+			mk("equal nested maps", []any{map[string]any{"p": map[string]int{"x": 1, "y": 2}, "q": []any{map[string]any{"u": 1.0, "v": 2.0}}}, map[string]any{"q": []any{map[gen.MyKey]any{"v": 2, "u": 1}}, "p": map[string]any{"y": 2.0, "x": 1.0}}}),
+			mk("three maps, first and last equal", []any{map[string]any{"a": 1.0, "b": 2.0}, map[string]any{"a": 2.0, "b": 1.0}, map[string]int{"b": 2, "a": 1}}),
+			mk("maps with 5 keys (menu orders)", []any{map[string]any{"a": 1.0, "b": 2.0, "c": 3.0, "d": 4.0, "e": 5.0}, map[string]int{"e": 5, "d": 4, "c": 3, "b": 2, "a": 1}, map[string]any{"a": 1.0, "b": 2.0, "c": 3.0, "d": 4.0, "e": 6.0}}),
+		}
+		ow := exploreSubjects(subs, shard, nshards, true)
+		// expected verdicts of the default executions
+		w.Executions += ow.Executions
+		w.Points += ow.Points
+		w.States += ow.States
+		w.Failures = append(w.Failures, ow.Failures...)
+		w.Capped = w.Capped || ow.Capped
+		if ow.MaxDepth > w.MaxDepth {
+			w.MaxDepth = ow.MaxDepth
+		}
+		w.Bound = 3
+		w.Extra["order_x_hash_subjects"] = len(subs)
+		if shard == 0 {
+			for i, want := range []bool{false, true, false, false, false} {
+				jsonschema.VerifResetLazyGlobals()
+				if got := subs[i].run(); got != fmt.Sprint(want) {
+					w.Failures = append(w.Failures, envrun.Failure{Key: subs[i].desc + " [default orders]", What: "want valid=" + fmt.Sprint(want) + ", got " + got})
+				}
+			}
+		}
+	}
 	// hash law: Equal(x, y) => identical byte streams (same seed => identical hashes)
 	if shard == 0 {
 		items, err := c11.Items(thorough)
